@@ -35,9 +35,10 @@ Ftype = H.Ftype
 verbs_mod = pdt._internal.pipe.verbs
 SubqueryError = pdt.errors.SubqueryError
 
-STATES = [CM.S(limit=l, agg=a, filtered=f, ordered=o, k1=k, grouped_now=g)
+STATES = [CM.S(limit=l, agg=a, filtered=f, ordered=o, k1=k, grouped_now=g, c1_hidden=h)
           for l in (False, True) for a in ("none", "grouped", "ungrouped") for f in (False, True) for o in (False, True)
-          for k in (("ew", "win") if a == "none" else ("agg",)) for g in ((False, True) if a == "none" else (False,))]
+          for k in (("ew", "win") if a == "none" else ("agg",)) for g in ((False, True) if a in ("none", "grouped") else (False,))
+          for h in ((False, True) if (k == "win" and not f and not o) else (False,))]
 
 
 def build_pre(s: CM.S, backend_cls):
@@ -47,10 +48,11 @@ def build_pre(s: CM.S, backend_cls):
         c1 = 0
         c0 = None
     elif s.agg == "grouped":
-        cols, kinds = ["vis", "vis"], ["ew", s.k1]
+        # grouped_now: the summarized table has been regrouped over its grouping column (group_by(g) >> summarize >> group_by(g))
+        cols, kinds = ["grp" if s.grouped_now else "vis", "vis"], ["ew", s.k1]
         c0, c1 = 0, 1
     else:
-        cols, kinds = ["grp" if s.grouped_now else "vis", "vis", "hid"], ["ew", s.k1, "ew"]
+        cols, kinds = ["grp" if s.grouped_now else "vis", "hid" if s.c1_hidden else "vis", "hid"], ["ew", s.k1, "ew"]
         c0, c1 = 0, 1
     ft = {"ew": Ftype.ELEMENT_WISE, "win": Ftype.WINDOW, "agg": Ftype.AGGREGATE}
     pre = TS.Pre(TS.Skeleton(cols), "t", backend_cls=backend_cls, ftypes=[ft[k] for k in kinds], limit=5 if s.limit else 0, is_filtered=s.filtered)
@@ -118,8 +120,11 @@ def verb_cases(pre, s: CM.S):
         out.append(("slice_head(n,offset=k)", "slice_head", {}, True, lambda P, T: T[0] >> pdt.slice_head(3, offset=1)))
         out.append(("slice_head(0)", "slice_head", {}, True, lambda P, T: T[0] >> pdt.slice_head(0)))
     out.append(("group_by(c0)", "group_by", {}, s.agg == "none", lambda P, T: T[0] >> pdt.group_by(K(e))))
-    out.append(("select(c1)", "select", {}, True, lambda P, T: T[0] >> pdt.select(K(c1))))
-    out.append(("rename", "rename", {}, True, lambda P, T: T[0] >> pdt.rename({P[0].phys[c1]: P[0].nn("r0")})))
+    if not s.c1_hidden:
+        out.append(("select(c1)", "select", {}, True, lambda P, T: T[0] >> pdt.select(K(c1))))
+        out.append(("rename", "rename", {}, True, lambda P, T: T[0] >> pdt.rename({P[0].phys[c1]: P[0].nn("r0")})))
+    else:
+        out.append(("select(c0)", "select", {}, True, lambda P, T: T[0] >> pdt.select(K(c0))))
     out.append(("ungroup", "ungroup", {}, True, lambda P, T: T[0] >> pdt.ungroup()))
     return [(a, b, c_, d, bind(f)) for a, b, c_, d, f in out]
 
@@ -165,7 +170,25 @@ def make_s3(s: CM.S, label, verb, fkw, frag, fn):
         pre = build_pre(s, H.sqlite_backend.SqliteImpl)
         ok, why = CM.fits(verb, s, **fkw)
         kw = {"t": sql_kw(pre, s)}
-        paths, wit = TS.explore_step([pre], fn, "sql", sql_state_kw=kw)
+
+        def twice(P, T):
+            """S9: the verdict of a verb does not depend on what was derived from the same table before"""
+            try:
+                fn(P, T)
+                e1 = None
+            except Exception as e:  # noqa: BLE001
+                e1 = e
+            try:
+                second = fn(P, T)
+            except Exception as e2:  # noqa: BLE001
+                if e1 is None or type(e1) is not type(e2):
+                    raise AssertionError(f"S9: the second application of the verb to the same table raises {type(e2).__name__}, the first {'was accepted' if e1 is None else 'raised ' + type(e1).__name__} (a derivation changed its parent table)") from e2
+                raise
+            if e1 is not None:
+                raise AssertionError(f"S9: the first application raised {type(e1).__name__}, the second was accepted")
+            return second
+
+        paths, wit = TS.explore_step([pre], twice, "sql", sql_state_kw=kw)
         vc = VC(f"state {s}: {label}: accepted => fits ({'fits' if ok else 'does NOT fit'}: {why}); J6 preserved" + ("; S5: never refused" if frag and in_fragment_state(s) else ""))
         for p in paths:
             vc.paths += 1
@@ -269,6 +292,28 @@ def make_s6(backend):
     return run
 
 
+def replay_s6(model):
+    import polars as pl
+    import sqlalchemy as sqa
+
+    def iv(k, d):
+        v = model.get(k, d)
+        return max(0, min(int(v), 30)) if isinstance(v, int) else d
+
+    L, O, n, k = iv("L", 3), iv("O", 0), iv("n", 2), iv("k", 1)
+    df = pl.DataFrame({"h": list(range(40))})
+    eng = sqa.create_engine("sqlite://")
+    df.write_database("t", eng)
+    res = {}
+    for be, t in (("polars", pdt.Table(df, name="t")), ("sqlite", pdt.Table("t", pdt.SqlAlchemy(eng)))):
+        try:
+            res[be] = (t >> pdt.arrange(t.h) >> pdt.slice_head(L, offset=O) >> pdt.slice_head(n, offset=k) >> pdt.export(pdt.Polars()))["h"].to_list()
+        except Exception as e:  # noqa: BLE001
+            res[be] = f"{type(e).__name__}: {str(e)[:100]}"
+    want = list(range(40))[O:O + L][k:k + n]
+    return {"reproduced": res["sqlite"] != want or res["polars"] != want, "text": f"arrange(h) >> slice_head({L}, offset={O}) >> slice_head({n}, offset={k}) on rows 0..39: expected {want}, Polars {res['polars']}, SQLite {res['sqlite']}"}
+
+
 # ---- S4 ------------------------------------------------------------------------------------------------
 
 
@@ -307,7 +352,7 @@ class RealPre:
         import polars as pl
         import sqlalchemy as sqa
 
-        df = pl.DataFrame({"a": [3, 1, 2, 2, 5, None], "b": [10, 20, None, 40, 50, 60], "h": [1, 2, 3, 4, 5, 6]})
+        df = pl.DataFrame({"a": [3, 1, 0, 2, 2, 5, None], "b": [10, 20, 30, None, 40, 50, 60], "h": [1, 2, 3, 4, 5, 6, 7]})
         if backend == "polars":
             t = pdt.Table(df, name="t")
         else:
@@ -329,8 +374,10 @@ class RealPre:
             self.c0, self.c1 = None, 0
         else:
             if s.k1 == "win":
-                t = t >> pdt.mutate(c1=base.b.shift(1, arrange=base.h)) >> pdt.select(base.a, pdt.C.c1)
-                self.cols = [base.a, t.c1, base.h]
+                t = t >> pdt.mutate(c1=base.b.shift(1, arrange=base.h))
+                c1col = t.c1
+                t = t >> (pdt.select(base.a) if s.c1_hidden else pdt.select(base.a, pdt.C.c1))
+                self.cols = [base.a, c1col, base.h]
             else:
                 t = t >> pdt.select(base.a, base.b)
                 self.cols = [base.a, base.b, base.h]
@@ -367,6 +414,8 @@ def make_replayer(s: CM.S, label, fn, with_alias=False):
                     warnings.simplefilter("ignore")
                     rp = RealPre(s, be, with_alias)
                     res_tbl = fn([rp], [rp.tbl])
+                    if s.c1_hidden and not label.startswith(("summarize", "select", "group_by")):
+                        res_tbl = res_tbl >> pdt.mutate(zz=rp.cols[1])  # re-expose the hidden window column (legal: referenced through the earlier table)
                     if label == "slice_head(0)":
                         res_tbl = res_tbl >> pdt.summarize(n=pdt.count())  # the broken coupling shows in the next verb
                     out = res_tbl >> pdt.ungroup() >> pdt.export(pdt.Polars())
@@ -376,7 +425,26 @@ def make_replayer(s: CM.S, label, fn, with_alias=False):
             except Exception as e:  # noqa: BLE001
                 res[be] = f"raises {type(e).__name__}: {str(e)[:160]}"
         diff = res["polars"] != res["sqlite"] and res["sqlite"] != "SubqueryError"
-        return {"reproduced": bool(diff), "text": f"state {s}, then {label}: Polars -> {str(res['polars'])[:300]} ; SQLite -> {str(res['sqlite'])[:300]}"}
+        text = f"state {s}, then {label}: Polars -> {str(res['polars'])[:300]} ; SQLite -> {str(res['sqlite'])[:300]}"
+        if not diff:
+            # S9: apply the verb twice to the same SQL table
+            try:
+                with warnings.catch_warnings():
+                    warnings.simplefilter("ignore")
+                    rp = RealPre(s, "sqlite", with_alias)
+                    v = []
+                    for _ in range(2):
+                        try:
+                            fn([rp], [rp.tbl])
+                            v.append("accepted")
+                        except Exception as e:  # noqa: BLE001
+                            v.append(type(e).__name__)
+                if v[0] != v[1]:
+                    diff = True
+                    text += f" ; applying the verb twice to the same table: first {v[0]}, second {v[1]}"
+            except Exception:  # noqa: BLE001
+                pass
+        return {"reproduced": bool(diff), "text": text}
 
     return replay
 
@@ -388,7 +456,7 @@ def obligations(tier):
     for s in STATES:
         pre = build_pre(s, H.sqlite_backend.SqliteImpl)
         for label, verb, fkw, frag, fn in verb_cases(pre, s):
-            tag = f"{'L' if s.limit else '-'}{s.agg[0]}{'F' if s.filtered else '-'}{'O' if s.ordered else '-'}{s.k1}{'G' if s.grouped_now else '-'}"
+            tag = f"{'L' if s.limit else '-'}{s.agg[0]}{'F' if s.filtered else '-'}{'O' if s.ordered else '-'}{s.k1}{'G' if s.grouped_now else '-'}{'h' if s.c1_hidden else ''}"
             obs.append(Obligation(f"C08/S3/{tag}/{label}", "S3+S5+J6", f"{label} in state {s}", make_s3(s, label, verb, fkw, frag, fn), functions=fns, replayer=make_replayer(s, label, fn),
                                   bounded="abstract clause states enumerated on a table of width <= 3 (names / limit values symbolic)",
                                   carveouts={"placement": "known placement gap", "fragment": "", "j6_aggregated": "ungrouped aggregation not recorded", "j6_limit0": "limit 0 sentinel"}))
@@ -398,7 +466,7 @@ def obligations(tier):
             if not ok and (tier == "thorough" or (not s.filtered and not s.ordered)):
                 obs.append(Obligation(f"C08/S4/{tag}/{label}", "S4+S7", f"alias() >> {label} in state {s}", make_s4(s, label, verb, fkw, fn), functions=fns, bounded="same state enumeration", replayer=make_replayer(s, label, fn, with_alias=True),
                                       carveouts={"whole": ""}))
-    obs.append(Obligation("C08/S6/sql", "S6", "LIMIT/OFFSET composition of consecutive slice_head (symbolic n, offsets)", make_s6("sql"), functions=[fi(H.sql_backend.SqlImpl.compile_ast)], carveouts={"offset_le_limit": "second offset within the first slice"}))
+    obs.append(Obligation("C08/S6/sql", "S6", "LIMIT/OFFSET composition of consecutive slice_head (symbolic n, offsets)", make_s6("sql"), functions=[fi(H.sql_backend.SqlImpl.compile_ast)], carveouts={"offset_le_limit": "second offset within the first slice"}, replayer=replay_s6))
     obs.append(Obligation("C08/S6/polars", "S6", "Polars applies slice(offset, n) to the current frame", make_s6("polars"), functions=[fi(H.polars_backend.compile_ast)]))
     return obs
 
